@@ -65,6 +65,8 @@ Section WithHash.
           step c s (OResize (shard_capacity_for cap (N.of_nat n) (N.of_nat i)) (victims_of n i vs))) cs
     | OEvictAll vs =>
         map_opt_from 0 (fun i s => step c s (OEvictAll (victims_of n i vs))) cs
+    | OFlush vs =>
+        map_opt_from 0 (fun i s => step c s (OFlush (victims_of n i vs))) cs
     | OClone h _ | ODrop h =>
         (* a handle lives in the shard of its record *)
         map_opt_from 0 (fun _ s => if has_handle h s then step c s o else Some s) cs
